@@ -134,6 +134,12 @@ def run_replay(ctx, path):
 SPECIAL_REPLAY = {}
 
 
+def hang_clause(pid, h):
+    if h.get("kind") == "panic_in_observation":
+        return pid + ".total: the code under test panicked while the harness was probing / observing the object"
+    return PROPS[pid].get("hang_clause", pid + ".total: a call did not return (hang)")
+
+
 def hang_replay(ctx, rp):
     """Re-run the harness command that was ended by the watchdog."""
     w = ctx.sub("replay_run")
@@ -158,7 +164,7 @@ def finish(ctx, wall, write=True):
         if not h["handled"]:
             h["handled"] = True
             ctx.rejects.append({"tid": h["hang"].get("tid", 0), "kind": "hang", "vh_args": h["args"], "hang": h["hang"], "sig": "hang",
-                                "clause": PROPS[pid].get("hang_clause", pid + ".total: a call did not return (hang)"),
+                                "clause": hang_clause(pid, h["hang"]),
                                 "records": "hang.ndjson", "s": h["hang"].get("s", ""), "pspec": "", "pconsts": {}})
     tool = [r for r in ctx.rejects if r["clause"].startswith("TOOL.")]
     if tool:
@@ -1202,7 +1208,7 @@ def handle_hang(ctx, stats, records, tag, pspec, hist=None):
         for g in vlib.HANGS:
             if g["hang"] is h:
                 g["handled"] = True
-        ctx.rejects.append({"tid": h.get("tid", 0), "clause": PROPS[ctx.pid].get("hang_clause", ctx.pid + ".total: a call did not return (hang)"),
+        ctx.rejects.append({"tid": h.get("tid", 0), "clause": hang_clause(ctx.pid, h),
                             "records": records, "s": tag, "pspec": pspec, "pconsts": {}, "hist": hist, "scenarios": None,
                             "sig": "hang"})
 
